@@ -90,13 +90,34 @@ def least_squares(fun, x0, jac="2-point", bounds=(-float("inf"), float("inf")), 
     f1 = _np.atleast_1d(fun(xs.copy()))
     call["x"] = xs
     call["f1"] = f1
+    success = True
+    if CONFIG.get("protocol") and c.mode != "exact":
+        # evaluation protocol of an iterative solver: the residual closure may be evaluated at further points after
+        # the returned iterate (a rejected trial step, a finite-difference probe), and the run may end unconverged
+        xl = _np.empty(n, dtype=object)
+        for i in range(n):
+            v = core.var(f"lsq{len(CONFIG['calls'])}_last{i}")
+            if not _special(lb[i]):
+                core.assume(v >= lb[i], "optimiser contract: every evaluated point within the bounds")
+            if not _special(ub[i]):
+                core.assume(v <= ub[i], "optimiser contract: every evaluated point within the bounds")
+            W = CONFIG.get("window")
+            if W is not None and _special(lb[i]) and _special(ub[i]):
+                core.assume(core.And(v >= lift(x0[i]) - W, v <= lift(x0[i]) + W),
+                            f"cut: unbounded parameters of every evaluated point lie within {W} of the start")
+            xl[i] = v
+        call["x_last"] = xl
+        fun(xl.copy())
+        ok = core.var(f"lsq{len(CONFIG['calls'])}_converged", 0, 1)
+        success = bool(ok >= F(1, 2))
+        call["success"] = success
     if any(_special(v) for v in f1.reshape(-1)):
         raise core.Abort("infeasible", "optimiser contract: residual at the result is finite")
     c0 = sum((lift(v) * lift(v) for v in f0.reshape(-1)), SR(F(0)))
     c1 = sum((lift(v) * lift(v) for v in f1.reshape(-1)), SR(F(0)))
     if CONFIG["cost"] and c.mode != "exact":
         core.assume(c1 <= c0, "optimiser contract: cost at the result does not exceed the cost at the start")
-    return types.SimpleNamespace(x=xs, cost=c1 / 2, fun=f1, success=True, status=1, nfev=2, njev=1, optimality=SR(F(0)),
+    return types.SimpleNamespace(x=xs, cost=c1 / 2, fun=f1, success=success, status=1 if success else 0, nfev=2, njev=1, optimality=SR(F(0)),
                                  message="contract stub", active_mask=_np.zeros(n, dtype=int))
 
 
@@ -104,7 +125,8 @@ def minimize_scalar(*a, **k):
     raise core.Abort("unsupported", "scipy.optimize.minimize_scalar is not modelled")
 
 
-def reset(cost=True, enabled=True, window=None, hint=None):
+def reset(cost=True, enabled=True, window=None, hint=None, protocol=False):
+    CONFIG["protocol"] = protocol
     CONFIG["window"] = window
     CONFIG["hint"] = hint
     CONFIG["cost"] = cost
